@@ -37,6 +37,33 @@ CHECKS = {
                      "target, no `do` record after a non-zero `done` within a process, contents after exit 0.",
                 note="Serial (-j1) enumeration is complete for this world and list length <=3; other graph shapes are covered only through C01/C02's fail world. "
                      "Parallel interleavings are explored by the E2 scenarios."),
+    "C13": dict(engine="E4 + single-step real-binary enumeration", category="exploration", design_ref="DESIGN.md §4 C13",
+                technique="exhaustive enumeration of target paths x all 2^k placements of candidate scripts, independent reference of the documented search order",
+                text="E4: for every target path of a component grammar (5 directory shapes x 9 name shapes incl. leading dots, double dots, spaces, unicode; "
+                     "thorough also '..' and doubled-separator spellings) the candidate list of the library (possible_do_files) equals an independent "
+                     "reference of the documented order. Real binary: for targets with k<=8 candidates, ALL 2^k placements of candidate scripts are built "
+                     "with `redo` and listed with `redo-whichdo`; chosen script, $1, $2, $3, cwd and the whichdo listing/status must equal the reference.",
+                note="Exhaustive over the stated grammar and placements; longer names/deeper trees are not covered. History part (add higher-priority / remove chosen) is C02's default world."),
+    "C14": dict(engine="E1 (+E2 scenario always-j2)", category="model_checking", design_ref="DESIGN.md §4 C14",
+                technique="explicit-state BFS over create/delete/edit/build histories on the real binary; reference-simulation oracle",
+                text="All histories <= d (quick 3-4, thorough 5-6) of {redo-ifchange, create f, delete f, edit f, edit unrelated u} on worlds declaring "
+                     "redo-ifcreate (conditionally and unconditionally) and of {redo-ifchange, redo, edit} on redo-always worlds with 2 and 3 dependents; "
+                     "rebuilt iff the watched path came into existence, never for unrelated edits; ifcreate of an existing path fails; the always-target "
+                     "runs exactly once in every run that needs it and not otherwise.",
+                note="-j1 here; the 'exactly once at -j2' part is an E2 scenario. Flat worlds."),
+    "C15": dict(engine="E4 (+E1/E2 end-to-end spellings)", category="exploration", design_ref="DESIGN.md §4 C15",
+                technique="exhaustive enumeration of all strings <= n over {a,b,.,/} and all (cwd,t,base) triples in a real tree with symlinks; kernel stat identity as ground truth",
+                text="normpath over every string of length <=6 (quick) / <=8 (thorough, 87 381) over {a,b,.,/} plus all <=6-component sequences of {'', ., .., a, bb}: "
+                     "equals an independent Clean, is idempotent, and whenever stat(x) succeeds in a symlink-free real tree stat(normpath(x)) names the same inode. "
+                     "relpath/realdirpath over all triples of 6 working directories x ~75 spellings x 15 bases in a real tree with directory symlinks: re-joining "
+                     "reaches the same directory entry (lstat identity).",
+                note="Kernel path resolution is the ground truth. Alphabets as stated; longer strings not covered. End-to-end one-record/one-lock/one-build part: see extra_checks."),
+    "C17": dict(engine="E1", category="model_checking", design_ref="DESIGN.md §4 C17",
+                technique="explicit-state BFS over histories with query commands probed in every reached state and a shadow replay with queries interleaved",
+                text="Every state reached by the C01/C02 history space (depth <= d) is probed with redo-ood, redo-targets, redo-sources: lower <= ood <= upper "
+                     "against the reference model, targets/sources disjoint and consistent with the ownership ledger; and each deepest history is replayed with all "
+                     "three queries inserted after every step: exit codes, executed scripts, file contents and the final canonical database key must be identical.",
+                note="Reference model trusted; 'known files' taken from the implementation's Files table. -j1."),
 }
 
 NOT_YET = "check not built yet in this session (work in progress; see DESIGN.md §4 for the planned bounded exhaustive check)"
